@@ -1598,7 +1598,8 @@ func (e *Entry) dup() *Entry {
 
 	ne.Extra = make(map[string][]interface{})
 	for k, v := range e.Extra {
-		ne.Extra[k] = v
+		// merge appends to these lists: give the copy its own.
+		ne.Extra[k] = append([]interface{}(nil), v...)
 	}
 
 	// Deviations append to the defaults of a leaf-list in place.
